@@ -389,3 +389,35 @@ Print Assumptions C13_msg_find.
 Print Assumptions C13_msg_replace_split.
 Print Assumptions C13_msg_starts_ends_to_num.
 Print Assumptions C13_natives_modelled.
+
+(* ======================================================================================================== *)
+(* R2G block (added; see notes/R2G.md): utils::validate_integer, Value::try_as_bounded_index,
+   ObjRange::make_bounded_range and ObjStringIter::next, TRANSLATED from the current utils.rs / value.rs / object.rs
+   into gen/PureIndex.v by translator/rust2gallina.py on every run, equal the hand-written models
+   (Index.validate_integer / bounded_index / bounded_range, StrFns.iter_next).  A change of one of these Rust
+   functions changes the generated text and breaks the NAMED statement. *)
+From YVGen Require PureIndex.
+From YV Require R2G R2GProofs StrRun PureEquivIndex.
+Theorem C13_gen_validate_integer_eq_model : forall x shown,
+  PureIndex.validate_integer (R2G.RNumber x) shown =
+  PureEquivIndex.result_view (fun z => z) (Index.validate_integer shown (idx_of_num (StrRun.num_of_f64 x))).
+Proof. exact PureEquivIndex.gen_validate_integer_eq_model. Qed.
+Theorem C13_gen_try_as_bounded_index_eq_model : forall x shown bound kind,
+  (0 <= bound <= isize_max)%Z ->
+  PureIndex.try_as_bounded_index (R2G.RNumber x) shown bound kind =
+  R2G.Val (PureEquivIndex.result_view Z.of_nat (bounded_index kind shown (idx_of_num (StrRun.num_of_f64 x)) bound)).
+Proof. exact PureEquivIndex.gen_try_as_bounded_index_eq_model. Qed.
+Theorem C13_gen_make_bounded_range_eq_model : forall rb re limit kind,
+  in_isize rb = true -> in_isize re = true -> (0 <= limit <= isize_max)%Z ->
+  PureIndex.make_bounded_range rb re limit kind =
+  R2G.Val (PureEquivIndex.result_view PureEquivIndex.pair_view (bounded_range kind rb re limit)).
+Proof. exact PureEquivIndex.gen_make_bounded_range_eq_model. Qed.
+Theorem C13_gen_string_iter_next_eq_model : forall s pos fuel,
+  (length s < fuel)%nat -> (Z.of_nat (length s) < 2 ^ 64)%Z -> (Z.of_nat pos + 1 < 2 ^ 64)%Z ->
+  PureIndex.ObjStringIter_next fuel s (Z.of_nat pos) = R2G.Val (PureEquivIndex.iter_view (iter_next s pos)).
+Proof. exact PureEquivIndex.gen_string_iter_next_eq_model. Qed.
+Print Assumptions C13_gen_validate_integer_eq_model.
+Print Assumptions C13_gen_try_as_bounded_index_eq_model.
+Print Assumptions C13_gen_make_bounded_range_eq_model.
+Print Assumptions C13_gen_string_iter_next_eq_model.
+(* ================================================ end of the R2G block ================================= *)
